@@ -4,7 +4,7 @@ def topo14_nontrivial(cmd, inp, impl, prev):
 
 TB = "Trusted: Lean kernel (axioms propext, Classical.choice, Quot.sound only, audited per theorem), the correspondence check (sampled), the harness printers and Lean driver runtime, the extractor for the regenerated tag table and section-marker constant. "
 
-PROP = dict(
+PROP = dict(search_rounds=1, 
     family="c14", session_start={"topo.load"}, trivial=topo14_nontrivial,
     n=dict(quick=260, thorough=4000),
     exhaustive=dict(quick=False, thorough=False),
